@@ -105,6 +105,13 @@ fn chain_docs() -> Vec<Value> {
     docs
 }
 
+/// plain-string arrays WITH repetition (every sequence over two strings up to length 3)
+fn chain_docs_repeated_strings() -> Vec<Value> {
+    let mut docs: Vec<Value> = sequences_rep(2, 3).iter().map(|s| json!({"l♭": s.iter().map(|&c| if c == 0 { "p" } else { "q" }).collect::<Vec<_>>()})).collect();
+    docs.push(json!({}));
+    docs
+}
+
 /// One chain: returns a violation detail if any reconstruction differs
 fn run_chain(menu: &std::sync::Arc<Menu>, chain: &[usize], commit_each: bool) -> Result<u64, Value> {
     let mut w = World::new(1, menu.clone());
@@ -132,7 +139,8 @@ fn run_chain(menu: &std::sync::Arc<Menu>, chain: &[usize], commit_each: bool) ->
         }
         if let Some(arr) = menu.docs[d].get("l♭") {
             if let Ok(wr) = w.reps[0].m.get_winner(duuid) {
-                let ids: Vec<Value> = arr.as_array().unwrap().iter().map(|e| e["_id"].clone()).collect();
+                // (stored form of an element: the identifier of a tracked object, "!<string>" for a plain string)
+                let ids: Vec<Value> = arr.as_array().unwrap().iter().map(|e| match e.as_str() { Some(s) => json!(format!("!{}", s)), None => e["_id"].clone() }).collect();
                 expected_by_rev.insert(wr, Value::Array(ids));
             }
         }
@@ -166,7 +174,22 @@ fn run_chain(menu: &std::sync::Arc<Menu>, chain: &[usize], commit_each: bool) ->
 
 /// chain exploration under the cache capacities given by the current process environment
 pub fn chains_part(thorough: bool) -> Value {
-    let docs = chain_docs();
+    let a = chains_part_docs(thorough, chain_docs());
+    let b = chains_part_docs(thorough, chain_docs_repeated_strings());
+    let mut bad: Vec<Value> = a["bad"].as_array().cloned().unwrap_or_default();
+    bad.extend(b["bad"].as_array().cloned().unwrap_or_default());
+    json!({
+        "array_cache_cap": a["array_cache_cap"], "data_cache_cap": a["data_cache_cap"],
+        "chains": a["chains"].as_u64().unwrap_or(0) + b["chains"].as_u64().unwrap_or(0),
+        "max_chain_len": a["max_chain_len"],
+        "docs": a["docs"].as_u64().unwrap_or(0) + b["docs"].as_u64().unwrap_or(0),
+        "checks": a["checks"].as_u64().unwrap_or(0) + b["checks"].as_u64().unwrap_or(0),
+        "families": ["tracked elements x,y,z without repetition", "plain strings p,q with repetition"],
+        "bad": bad,
+    })
+}
+
+fn chains_part_docs(thorough: bool, docs: Vec<Value>) -> Value {
     let n = docs.len();
     let m = menu(docs);
     let len = if thorough { 4 } else { 3 };
